@@ -46,6 +46,21 @@ func main() {
 		known := fs.String("known", "/verif/known-findings.txt", "known findings file")
 		fs.Parse(os.Args[2:])
 		os.Exit(runCheckAll(*repo, *known))
+	case "fsmref":
+		// prints the reference table of one automaton (used once, on the reviewed tree, to write ref/<Func>.txt)
+		p, err := loadProg("/repo", "debug")
+		if err != nil {
+			fmt.Fprintln(os.Stderr, err)
+			os.Exit(2)
+		}
+		c := &Ctx{Prog: p}
+		r := fsmOf(c, os.Args[2])
+		if r == nil || r.head == nil {
+			os.Exit(2)
+		}
+		for _, l := range fsmSignature(r) {
+			fmt.Println(l)
+		}
 	case "errsets":
 		dumpErrSets("/repo")
 	case "fsm":
